@@ -50,7 +50,7 @@ RespParses(o) == CASE o.id = 1 -> Len(o.body) = 5
 Decide(o) == IF o.kind = "part" THEN "none"
              ELSE IF o.id \in ResponseIds /\ DOMAIN outstanding # {}
                   THEN (IF RespParses(o) /\ Echo(o) \in DOMAIN outstanding THEN "match" ELSE "none")
-             ELSE IF ReplyFor(o).has THEN "reply" ELSE "none"
+             ELSE IF o.id \in ReplyBearing THEN "reply" ELSE "none"     \* HasReply() of the type; the body may still be refused
 AsM(o, n) == [n |-> n, id |-> o.id, ver |-> o.ver, phone |-> o.phone, digits |-> PhoneDigits(o.phone), serial |-> o.serial,
            body |-> o.body, enc |-> 0, kind |-> o.kind, total |-> o.total, no |-> o.no]
 
@@ -89,8 +89,11 @@ WMsg == /\ E.ev = "w_msg"
                              /\ UNCHANGED <<x, nmsg, hdr, toReport, cbQ, wireQ, pser, issued, written, outstanding, matched, expectRet, returned, activeCb>>
 ReplyBegin == /\ E.ev = "reply_begin"
               /\ IF ~(pend = "reply" /\ cur.serial = E.serial) THEN Fail("ReplyUnexpected")
-                 ELSE LET fr == ReplyFrame(cur, pser) IN
-                      /\ cbQ' = Append(cbQ, fr) /\ wireQ' = Append(wireQ, fr) /\ pser' = (pser + 1) % 65536 /\ pend' = "none" /\ Ok
+                 ELSE LET fr == ReplyFrame(cur, pser) has == ReplyFor(cur).has IN   \* ~has: body refused (0x0102/2019 too short): logged, nothing written
+                      /\ cbQ' = (IF has THEN Append(cbQ, fr) ELSE cbQ)
+                      /\ wireQ' = (IF has THEN Append(wireQ, fr) ELSE wireQ)
+                      /\ pser' = (IF has THEN (pser + 1) % 65536 ELSE pser)
+                      /\ pend' = "none" /\ Ok
                       /\ UNCHANGED <<x, nmsg, hdr, toReport, toWriter, cur, issued, written, outstanding, matched, expectRet, returned, activeCb>>
 WriteCb == /\ E.ev = "writecb"
            /\ IF E.active
